@@ -164,7 +164,7 @@ Definition load_dc : act := upd (fun s => match dcache s with None => set_dcache
 Inductive mode := Copy | Move.
 Inductive op :=
   | Put (d v : N) | Ingest (m : mode) (d : N) | Assoc (d : N) | Untag (d : N) | Cert (d : N)
-  | InsDim (g : N) | Expand (g : N) | Purge (d : N) | Unstore (d : N) | EmptyTrash | Transfer (d : N).
+  | InsDim (g : N) | Expand (g : N) | Purge (d : N) | Unstore (d : N) | EmptyTrash | Transfer (d : N) | ImportDs (d : N).
 
 Definition has_ds d (s : st) := mem d (ds (cur s)).
 Definition stored_rows d := upd (on_cur (fun x => up_recs (add d) (up_loc (add d) x))).
@@ -253,6 +253,18 @@ Definition do_transfer (c : cfg) (d : N) : act :=
       (ev ret ;; ev (upd (fun s => set_fs (fset d (src_content d) (fs s)) s)) ;; reg_undo (URm d) ;; ev ret ;;
        ev (stored_rows d)) s)).
 
+(* Butler.import_(directory=<source root>, filename=<export file holding the dataset of slot d>, transfer="copy"):
+   registry._importDatasets as for transfer_from (same dataset id = no-op, same data ID under another id = conflict);
+   then FileDatastore.ingest (@transactional): the artifact is copied to a temporary name and renamed into place -- an
+   existing file is overwritten --, the undo is registered, and INSERT dataset_location / file_datastore_records FAIL when
+   the dataset is already located / recorded: the rollback then deletes the artifact that was there before. *)
+Definition do_import (c : cfg) (d : N) : act :=
+  butler_txn c (
+    ev (guard (fun s => negb (has_ds d s) || mem d (xf (cur s)))) ;;
+    upd (on_cur (fun x => up_xf (add d) (up_ds (add d) x))) ;;
+    with_ds c (ev ret ;; ev (upd (fun s => set_fs (fset d (src_content d) (fs s)) s)) ;; reg_undo (URm d) ;; ev ret ;;
+               ev (guard (fun s => negb (mem d (loc (cur s))) && negb (mem d (recs (cur s)))) ;; stored_rows d))).
+
 Definition exec_op (c : cfg) (o : op) : act :=
   match o with
   | Put d v => do_put c d v
@@ -268,6 +280,7 @@ Definition exec_op (c : cfg) (o : op) : act :=
   | Unstore d => do_unstore c d
   | EmptyTrash => do_empty_trash c
   | Transfer d => do_transfer c d
+  | ImportDs d => do_import c d
   end.
 
 Inductive prog := POp (o : op) | PBlock (ps : list prog) | PTry (p : prog) | PFail.
